@@ -15,9 +15,11 @@ Tie:    (T) tools/translate/choose.py matches the anchored functions statement b
         (S) the same exact PMF is compared with the property statement itself evaluated in plain Python
         (three-valued: programs whose stated probability is 0/0 or that use negative weights are 'undecided').
 """
+import bisect
 import builtins
 import itertools
 import json
+import math
 import os
 import random
 import sys
@@ -45,15 +47,16 @@ THEOREMS = [
     "Scenic.C19.runtime_options_weighted",
     "Scenic.C19.choices_interval",
     "Scenic.C19.named_operand_is_literal",
+    "Scenic.C19.named_operand_is_literal_gen",
     "Scenic.C19.shuffleVar_consumes",
-    "Scenic.C19.shuffle_consumes_operand_witness",
+    "Scenic.C19.operand_copy_is_needed",
     "Scenic.C19.generator_unfolding",
     "Scenic.C19.generator_refines_bigstep",
     "Scenic.C19.runSteps_refines_bigstep",
     "Scenic.C19.lockstep_independent",
     "Scenic.C19.sequence_independent",
 ]
-SIDE = ["Scenic.C19.gen_config_wf"]
+SIDE = ["Scenic.C19.gen_config_wf", "Scenic.C19.gen_copies_operand"]
 
 FINGERPRINTS = {
     "_invokeSubBehavior": ("src/scenic/core/dynamics/invocables.py", "Invocable._invokeSubBehavior"),
@@ -77,11 +80,16 @@ FINGERPRINTS = {
 
 MAX_PATHS = 700
 MAX_STEPS = 80
+# a program the enumerator cannot follow to the end is *skipped*; skips are counted and reported, and more than this
+# share of skipped programs breaks the correspondence (a skipped program must not be able to hide a defect)
+MAX_SKIP_SHARE = 0.05
+STATS = {"nonmonotone_choices": 0}
 
 
 # --------------------------------------------------------------------------- RNG-branch enumerator
 class TooManyPaths(Exception):
-    pass
+    """more RNG branches than the limit; `.partial` = the (result, probability) pairs enumerated so far"""
+    partial = ()
 
 
 class Unsupported(Exception):
@@ -96,6 +104,7 @@ class RngEnum:
     def __init__(self):
         self.script, self.fan, self.pos, self.prob = [], [], 0, Fraction(1)
         self.calls = 0
+        self.nonmonotone = 0  # calls of choices with cumulative weights that are not ascending
 
     def choose(self, options):
         self.calls += 1
@@ -120,26 +129,44 @@ class RngEnum:
         return self.choose([(k, Fraction(1, b - a + 1)) for k in range(a, b + 1)])
 
     def choices(self, population, weights=None, *, cum_weights=None, k=1):
+        """`random.Random.choices` as CPython computes it, with `random()` an ideal uniform real on [0, 1):
+        `population[bisect(cum_weights, random() * total, 0, n - 1)]`, `total = cum_weights[-1]`.  The bisection is
+        followed literally, so cumulative weights that are *not* ascending (negative weights, weights handed over
+        where cumulative weights are expected) are enumerated exactly as well: index i gets the measure of the raw
+        values on which the bisection ends at i."""
         if k != 1:
             raise Unsupported("choices with k != 1")
         population = list(population)
-        if cum_weights is not None:
-            if weights is not None:
-                raise TypeError("Cannot specify both weights and cumulative weights")
-            cw = [Fraction(c) for c in cum_weights]
-            ws = [cw[0]] + [cw[i] - cw[i - 1] for i in range(1, len(cw))]
+        n = len(population)
+        if cum_weights is None:
+            if weights is None:
+                if n == 0:
+                    raise IndexError("list index out of range")
+                return [self.choose([(x, Fraction(1, n)) for x in population])]
+            cum = list(itertools.accumulate(weights))
         elif weights is not None:
-            ws = [Fraction(w) for w in weights]
+            raise TypeError("Cannot specify both weights and cumulative weights")
         else:
-            ws = [Fraction(1)] * len(population)
-        if len(ws) != len(population):
+            cum = list(cum_weights)
+        if len(cum) != n:
             raise ValueError("The number of weights does not match the population")
-        tot = sum(ws)
-        if tot <= 0:
+        total = cum[-1] + 0.0
+        if total <= 0.0:
             raise ValueError("Total of weights must be greater than zero")
-        if any(w < 0 for w in ws):
-            raise Unsupported("negative weight reached random.choices")
-        return [self.choose([(x, w / tot) for x, w in zip(population, ws) if w > 0])]
+        if not math.isfinite(total):
+            raise ValueError("Total of weights must be finite")
+        cw = [Fraction(c) for c in cum]
+        tot = Fraction(total)
+        # x = random() * total is uniform on [0, tot); between two neighbouring values of cw every comparison
+        # `x < cw[mid]` of the bisection has a fixed result, so the index is constant there
+        pts = sorted({Fraction(0), tot} | {c for c in cw if 0 < c < tot})
+        mass = {}
+        for a, b in zip(pts, pts[1:]):
+            i = bisect.bisect_right(cw, a, 0, n - 1)
+            mass[i] = mass.get(i, 0) + (b - a) / tot
+        if any(c0 > c1 for c0, c1 in zip(cw, cw[1:])):
+            self.nonmonotone += 1
+        return [self.choose([(population[i], p) for i, p in sorted(mass.items())])]
 
     def unsupported(self, *a, **k):
         raise Unsupported("continuous / unsupported random primitive")
@@ -159,7 +186,9 @@ class RngEnum:
                 r = f()
                 out.append((r, self.prob))
                 if len(out) > limit:
-                    raise TooManyPaths()
+                    e = TooManyPaths()
+                    e.partial = out
+                    raise e
                 self.script, self.fan = self.script[: self.pos], self.fan[: self.pos]
                 while self.script and self.script[-1] + 1 >= self.fan[-1]:
                     self.script.pop()
@@ -464,14 +493,25 @@ def real_pmf(prog):
         return canon("done", ends[0][2], log[:-1])
 
     en = RngEnum()
-    res = en.run_all(attempt)
+    try:
+        res = en.run_all(attempt)
+    except TooManyPaths as e:
+        e.partial = _fold(e.partial)[0]
+        raise
+    finally:
+        STATS["nonmonotone_choices"] += en.nonmonotone
+    pmf, errs = _fold(res)
+    return pmf, len(res), errs
+
+
+def _fold(res):
     pmf, errs = {}, set()
     for r, p in res:
         if r[0] == "err":
             errs.add(r[3])
             r = r[:3]
         pmf[r] = pmf.get(r, 0) + p
-    return pmf, len(res), errs
+    return pmf, errs
 
 
 def parse_lean(line):
@@ -681,18 +721,6 @@ def items_of(prog, s):
     return prog["dicts"][s["var"]] if s.get("form") == "v" else s["items"]
 
 
-def reused_after_shuffle(prog):
-    """a dict variable is used again after a `do shuffle` on it"""
-    seen = set()
-    for s in prog["stmts"]:
-        if s.get("form") == "v":
-            if s["var"] in seen:
-                return True
-            if s["k"] == "shuffle":
-                seen.add(s["var"])
-    return False
-
-
 def literalised(prog):
     """the same program with every variable operand written out as a dict literal"""
     stmts = [dict(k=s["k"], form="d", items=[dict(it) for it in prog["dicts"][s["var"]]]) if s.get("form") == "v" else s
@@ -701,8 +729,6 @@ def literalised(prog):
 
 
 def violation_key(prog):
-    if reused_after_shuffle(prog):
-        return "pmf:dict-operand-reused-after-shuffle"
     return f"pmf:{kinds_of(prog)}"
 
 
@@ -806,13 +832,26 @@ def shrink(prog, still_fails, budget=40):
 
 def check_program(ctx, prog, lean_out, state):
     """run one program on the real interpreter; compare with Lean (C) and with the statement (S)"""
+    state["attempted"] += 1
     try:
         real, npaths, errs = real_pmf(prog)
-    except TooManyPaths:
-        ctx.hist("program", "skipped:too-many-paths")
-        return False
-    except Unsupported as e:
-        ctx.hist("program", "skipped:unsupported")
+    except (TooManyPaths, Unsupported) as e:
+        why = "too-many-paths" if isinstance(e, TooManyPaths) else f"unsupported ({e})"
+        ctx.hist("program", "skipped:" + why)
+        state["skipped"].setdefault(why, []).append(lean_line(prog))
+        if isinstance(e, TooManyPaths):
+            # the branches enumerated before the cut-off bound the real PMF from below: an outcome that already has
+            # more probability than the statement gives it is a failing input (one-sided, never a false alarm)
+            try:
+                spec = spec_pmf(prog)
+            except Undecided:
+                return False
+            over = [(k, p) for k, p in e.partial.items() if p > spec.get(k, 0)]
+            if over:
+                k, p = over[0]
+                what = (f"{prog['ctx']} body [{lean_line(prog)}]: the first {MAX_PATHS} RNG branches of the real interpreter "
+                        f"already give outcome [{show_outcome(k)}] probability {p}, stated: {spec.get(k, 0)}")
+                return bool(ctx.violation(violation_key(prog), what, {"kind": "program", "program": prog}))
         return False
     ctx.case(json.dumps(prog, sort_keys=True), nontrivial=nontrivial(prog))
     ctx.hist("program", "enumerated")
@@ -847,11 +886,6 @@ def check_program(ctx, prog, lean_out, state):
             def fails(p):
                 r, _, _ = real_pmf(p)
                 return diff_pmf(r, spec_pmf(p)) is not None
-            if reused_after_shuffle(prog) and "pmf:dict-operand-reused-after-shuffle" in state["known_seen"] \
-                    and not fails(literalised(prog)):
-                # the recorded defect again (the failure disappears when the operand is written out): no need to shrink
-                ctx.violation("pmf:dict-operand-reused-after-shuffle", "", {})
-                return found
             small = shrink(prog, fails)
             r2, _, errs2 = real_pmf(small)
             d2 = diff_pmf(r2, spec_pmf(small)) or d
@@ -860,8 +894,6 @@ def check_program(ctx, prog, lean_out, state):
             key = violation_key(small)
             if ctx.violation(key, what, {"kind": "program", "program": small}):
                 found = True
-            else:
-                state["known_seen"].add(key)
     except Undecided:
         ctx.hist("oracle", "undecided (0/0 or negative weight)")
         state["undecided"] += 1
@@ -933,7 +965,12 @@ def direct_api(ctx):
 
     def attempt():
         RT.reset(tables)
-        sim = DummySimulator().simulate(scene, maxSteps=5, maxIterations=1)
+        try:
+            sim = DummySimulator().simulate(scene, maxSteps=5, maxIterations=1)
+        except (Unsupported, TooManyPaths):
+            raise
+        except Exception as e:  # evaluating a distribution in a behavior made the simulation raise: an outcome, not an infra error
+            return (tuple(v for k, v, t in RT.LOG if k == 1), ("raised " + type(e).__name__,), False)
         return (tuple(v for k, v, t in RT.LOG if k == 1), tuple(RT.T.get("types", ())), sim is not None)
 
     res = RngEnum().run_all(attempt)
@@ -1005,7 +1042,7 @@ def run(ctx):
         except Infra:
             if pr.build_ok:
                 raise
-    state = {"corr_bad": 0, "undecided": 0, "known_seen": set()}
+    state = {"corr_bad": 0, "undecided": 0, "skipped": {}, "attempted": 0}
     found = False
     import time
     t_explore = time.time()  # the exploration budget does not include a Lean rebuild after a change of Gen/
@@ -1021,6 +1058,19 @@ def run(ctx):
         corr_choices(ctx)
     found |= direct_api(ctx)
     ctx.extra["oracle_undecided"] = state["undecided"]
+    nskip = sum(len(v) for v in state["skipped"].values())
+    ctx.extra["programs_attempted"] = state["attempted"]
+    ctx.extra["programs_skipped"] = nskip
+    ctx.extra["programs_skipped_by_reason"] = {k: len(v) for k, v in state["skipped"].items()}
+    ctx.extra["nonmonotone_choices_calls_enumerated"] = STATS["nonmonotone_choices"]
+    if nskip:
+        ctx.notes.append(f"{nskip} of {state['attempted']} programs could not be enumerated to the end and were skipped: "
+                         + "; ".join(f"{k}: {len(v)} (e.g. {v[0]})" for k, v in state["skipped"].items()))
+    if nskip > max(2, MAX_SKIP_SHARE * state["attempted"]):
+        ctx.broken("correspondence", "enumeration coverage",
+                   f"{nskip} of {state['attempted']} generated programs were skipped by the RNG-branch enumerator "
+                   f"(more than {MAX_SKIP_SHARE:.0%}): " + "; ".join(f"{k}: {len(v)} (e.g. {v[0]})"
+                                                                    for k, v in state["skipped"].items()))
     ctx.extra["correspondence_disagreements"] = state["corr_bad"]
     ctx.resolve_brokens(found)
 
@@ -1034,7 +1084,19 @@ def replay(ctx, path):
         src, _ = render(prog)
         print("program tables:", json.dumps(tables_of(prog), default=str))
         print(src)
-        real, n, errs = real_pmf(prog)
+        try:
+            real, n, errs = real_pmf(prog)
+        except TooManyPaths as e:
+            print(f"more than {MAX_PATHS} RNG branches; lower bounds from the branches enumerated so far:")
+            try:
+                spec = spec_pmf(prog)
+            except Undecided:
+                print("statement undecided for this program")
+                return 0
+            over = [(k, p) for k, p in e.partial.items() if p > spec.get(k, 0)]
+            for k, p in over[:10]:
+                print(f"  DIFFERENCE: outcome [{show_outcome(k)}]: at least {p}, stated {spec.get(k, 0)}")
+            return 1 if over else 0
         print(f"real interpreter, {n} RNG branches" + (f", exceptions {sorted(errs)}" if errs else ""))
         for k, p in sorted(real.items(), key=repr):
             print(f"  {p}  {show_outcome(k)}")
